@@ -353,8 +353,12 @@ class HttpParser:
         te = self._headers.get('transfer-encoding', '').lower()
 
         if clen is not None:
-            with contextlib.suppress(ValueError):
-                self._clen_rest = self._clen = int(clen)
+            # rfc 7230 sec 3.3.2: Content-Length = 1*DIGIT (int() would also
+            # take a sign, blanks, '_' ...)
+            clen = clen.strip()
+            if not (clen.isascii() and clen.isdigit()):
+                raise InvalidHeader('invalid Content-Length %s' % clen)
+            self._clen_rest = self._clen = int(clen)
         else:
             self._chunked = te == 'chunked'
             if not self._chunked:
